@@ -80,7 +80,10 @@ def gen_op(rng, n, times, steps, tables, allow_history=True):
         elif how == 'before': s = steps[0] - rng.randint(1, 5)
         else: s = steps[-1] + rng.randint(1, 50)
         return ['step', int(s)]
-    sel = H.make_selections(rng, tables, 1, all_subsets=False)
+    if rng.random() < 0.35:
+        s = H.make_invalid(rng, tables)          # a request that selects nothing: returns None, must change nothing
+        return ['history', s['items'], s.get('form', 'list')]
+    sel = [x for x in H.make_selections(rng, tables, 1, all_subsets=False) if not x.get('why', '').startswith('invalid')]
     s = rng.choice(sel)
     return ['history', s['items'], s.get('form', 'list')]
 
@@ -211,6 +214,90 @@ def job_c07(job, progress):
             res['samples'].append(dict(file=rel, variant=vspec.get('kind', 'orig'), ops=done[:6], indices=[t[1] for t in trace[:6]]))
     lst.close()
     return res
+
+
+def job_c07_shared(job, progress):
+    """several readers in ONE process, constructed with default arguments: readers opened first, then TOUGH2/11 stepped to its
+    last result time (where a table absent at the first time appears), then the earlier readers are navigated and new ones are
+    opened; after every action the view must be the one a fresh reader shows at that index in a process of its own"""
+    rng = random.Random(job['seed'])
+    base = {b['rel']: b for b in job['baseline']}
+    out = dict(violations=[], stats=Counter())
+    st = out['stats']
+
+    def check(rel, lst, done, phase):
+        st['shared-views-compared'] += 1
+        i = lst.index
+        nres = len(base[rel]['digests'])
+        if not (0 <= i < nres):
+            d = 'index %r' % (i,)
+        else:
+            b = base[rel]['digests'][i]
+            g = L.digest_view(L.dump_view(lst))
+            d = None
+            if sorted(base[rel]['names']) != sorted(lst.table_names):
+                d = 'exposes tables %r, a fresh reader alone in a process exposes %r' % (sorted(lst.table_names), sorted(base[rel]['names']))
+            elif g['hdr'] != b['hdr']:
+                d = 'index/time/step %s, fresh %s' % (g['hdr'], b['hdr'])
+            else:
+                bad = [t for t in b['tables'] if b['tables'][t] != g['tables'].get(t)]
+                if bad:
+                    d = 'table %s differs from a fresh reader at index %d' % (bad[0], i)
+        if d:
+            out['violations'].append(dict(key='view-differs-shared-process:%s' % rel.split('/')[0],
+                                          what='%s (%s) after %r: %s' % (rel, phase, done, d),
+                                          case=dict(file=rel, shared_process=True, ops=list(done), phase=phase)))
+            return False
+        return True
+
+    victims = [rel for rel in job['victims'] if rel in base]
+    progress({'phase': 1})
+    early = [(rel, L.construct(L.listing_base() / rel, 'default')) for rel in victims]
+    progress({'phase': 2})
+    if L.STEPPED_FIRST in base:
+        first = L.construct(L.listing_base() / L.STEPPED_FIRST, 'default')
+        done = []
+        while first.next():
+            done.append(['next'])
+            check(L.STEPPED_FIRST, first, done, 'default arguments')
+    progress({'phase': 3})
+    for phase, readers in [('opened before %s was stepped' % L.STEPPED_FIRST, early),
+                           ('opened after %s was stepped' % L.STEPPED_FIRST, [(rel, L.construct(L.listing_base() / rel, 'default')) for rel in victims])]:
+        for rel, lst in readers:
+            n = lst.num_fulltimes
+            times = [float(x) for x in lst.fulltimes]
+            steps = [int(x) for x in lst.fullsteps]
+            done = []
+            if not check(rel, lst, done, phase):
+                continue
+            for _ in range(job.get('n_ops', 8)):
+                op = gen_op(rng, n, times, steps, {}, allow_history=False)
+                try:
+                    apply_op(lst, op)
+                except IndexError:
+                    pass
+                done.append(op)
+                st['shared-actions'] += 1
+                if not check(rel, lst, done, phase):
+                    break
+    return out
+
+
+def shared_process_facet(ctx, res, rng):
+    files = [rel for rel, fam in L.corpus()]
+    baseline = [b for b in L.run_jobs('job_digest', [dict(rel=rel) for rel in files], timeout=ctx.n(120, 300), fresh=True)
+                if not isinstance(b, L.Timeout)]
+    victims = [b['rel'] for b in baseline if len(b['digests']) >= 2 and b['rel'] != L.STEPPED_FIRST]
+    job = dict(baseline=baseline, victims=victims, seed=rng.randrange(1 << 30), n_ops=ctx.n(8, 40))
+    r = L.run_jobs('job_c07_shared', [job], timeout=NAV_TIMEOUT, nworkers=1, module='props.c07', fresh=True)[0]
+    f = res.facet('shared_process')
+    if isinstance(r, L.Timeout):
+        res.violations.append(dict(key='navigation-hangs:shared-process', what='readers sharing a process: no answer (%r)' % (r.info,),
+                                   case=dict(shared_process=True)))
+        return
+    f['cases'] = r['stats'].get('shared-views-compared', 0)
+    res.count('shared-views-compared', f['cases'])
+    res.violations += r['violations']
 
 
 def build_jobs(ctx, rng, n_fresh, n_walks, walk_len, n_trunc, p_perturb, ops_budget=120):
@@ -410,6 +497,7 @@ def run(ctx):
     results = L.confirm_timeouts('job_c07', jobs, results, NAV_TIMEOUT, module='props.c07')
     collect(res, results, jobs)
     res.facet('oracle_navigation')['cases'] = res.stats.get('actions', 0)
+    shared_process_facet(ctx, res, rng)
     if ctx.model_ok:
         correspond(ctx, res, jobs, results)
     return res
@@ -434,6 +522,12 @@ def search(ctx, seconds, res):
 
 def replay(ctx, payload):
     c = payload.get('case') or {}
+    if c.get('shared_process'):
+        r2 = Result()
+        shared_process_facet(ctx, r2, ctx.rng('c07'))
+        if r2.violations:
+            return True, '\n'.join(v['what'] for v in r2.violations[:5])
+        return False, 'readers sharing a process show what a fresh reader alone shows (%d views compared)' % r2.stats.get('shared-views-compared', 0)
     if 'file' not in c or not c.get('ops'):
         return False, 'replay file names what no longer checks: %s' % payload.get('broken')
     rel = c['file']
